@@ -86,6 +86,7 @@ TARGETS = [
     Target('do_thread_usleep', TH, r'static int do_thread_usleep\(Timeout timeout, RunQ rq\)', rules=US),
     Target('do_thread_usleep_defer', TH, r'static int do_thread_usleep_defer\(Timeout timeout,\s*defer_func defer, void\* defer_arg, RunQ rq\)', rules=US),
     Target('yield_as_sleep', TH, r'inline int yield_as_sleep\(\)', rules=US),
+    Target('thread_usleep_waitq', TH, r'static int thread_usleep\(Timeout timeout, thread_list\* waitq\)', rules=US + [(r'__auto_type r = prepare_usleep\(timeout, waitq\);', 'struct URunQ rq; rq.current = CURRENT_; struct USwitch r = prepare_usleep_(timeout, waitq, rq);', 1)]),
     Target('thread_usleep_pub', TH, r'int thread_usleep\(Timeout timeout\) (?=\{)', rules=US),
     Target('thread_usleep_defer_pub', TH, r'int thread_usleep_defer\(Timeout timeout, defer_func defer, void\* defer_arg\) (?=\{)', rules=US),
     Target('thread_pause_work_stealing', 'thread/thread.h', r'inline void thread_pause_work_stealing\(bool flag, thread\* th = CURRENT\)', refs=True,
@@ -134,6 +135,7 @@ PROOFS = [
     Proof('resume_pass', 'sched.c', 'h_resume_threads', kind='L', min_obligations=8, expect_loops=2, aux_violation=True),
     Proof('idle_wait', 'sched.c', 'h_idle_wait', kind='L', min_obligations=3),
     Proof('usleep/dispatch', 'usleep.c', 'h_usleep', kind='L', min_obligations=4),
+    Proof('usleep/waitq', 'usleep.c', 'h_usleep_waitq', kind='L', min_obligations=3),
     Proof('usleep/defer', 'usleep.c', 'h_usleep_defer', kind='L', min_obligations=4),
     Proof('flags/pause_scope', 'flags.c', 'h_pause_scope', kind='L', min_obligations=3),
     Proof('flags/thread_shutdown', 'flags.c', 'h_thread_shutdown', kind='L', min_obligations=4),
